@@ -94,6 +94,18 @@ def gen(tier, seed):
                   [("breakadd", ("addr", 0x3002)), ("continue",), ("registers",), ("goto", ("addr", 0x3001)), ("continue",), ("registers",), ("exit",)]))
     specs.append(("corpus", 0, "and r0 r0 #0\nadd r0 r0 #1\nspin brp spin\nhalt\n", [],
                   [("breakadd", ("label", "spin", 0)), ("continue",), ("registers",), ("continue",), ("registers",), ("continue",), ("registers",), ("exit",)]))
+    # a breakpoint on EVERY address of the subroutine programs (the RET / RETS / JSR / CALL words among them) and every way of
+    # running into it: from every point of the run, with `step out`, `step` and `continue`
+    for p in (dbggen.p_call_rets, dbggen.p_nested_jsr, dbggen.p_return_other_reg):
+        for s7 in (0, 1, 3):
+            src, feat0 = p(random.Random(s7))
+            orig = dbggen.origin_of(src)
+            for feat in sorted({feat0, 1}):
+                for a in range(orig, orig + dbggen.nwords(src)):
+                    for k in range(0, 9):
+                        pre = [("stepinto", k)] if k else []
+                        for res in (("stepout",), ("step",), ("continue",)):
+                            specs.append(("break-everywhere:" + p.__name__, feat, src, [], [("breakadd", ("addr", a))] + pre + [res, ("registers",), res, ("registers",), ("exit",)]))
     return rnd, specs
 
 
